@@ -543,6 +543,9 @@ func init() {
 				}
 				core.BFS(c, sc)
 			}
+			if c.Shard == 0 {
+				c13Reopen(c.Res)
+			}
 			for _, sc := range c13cScenarios(c.Thorough()) {
 				if c.Expired() {
 					return
@@ -556,8 +559,25 @@ func init() {
 				Params   c13Cfg   `json:"params"`
 				Scenario string   `json:"scenario"`
 				Choices  []int    `json:"choices"`
+				RPages   int      `json:"reopen_pages"`
+				RTail    int      `json:"reopen_tail"`
 			}
 			json.Unmarshal(raw, &rp)
+			if rp.RPages > 0 {
+				dir := filepath.Join(core.Scratch(), "c13r-replay")
+				os.MkdirAll(dir, 0o755)
+				defer os.RemoveAll(dir)
+				path := filepath.Join(dir, "p.db")
+				os.WriteFile(path, make([]byte, rp.RPages*common.PageSize+rp.RTail), 0o644)
+				dm := disk.NewDiskManagerImpl(path)
+				got := dm.AllocatePage()
+				dm.ShutDown()
+				inUse := rp.RPages
+				if rp.RTail > 0 {
+					inUse++
+				}
+				return fmt.Sprintf("file of %d pages + %d bytes reopened: first AllocatePage returns %d, ids 0..%d have bytes in the file", rp.RPages, rp.RTail, got, inUse-1), int(got) < inUse
+			}
 			if rp.Scenario != "" {
 				for _, sc := range c13cScenarios(true) {
 					if sc.Name == rp.Scenario {
@@ -578,4 +598,49 @@ func init() {
 		},
 	})
 	_ = reflect.TypeOf
+}
+
+// c13Reopen: "a newly allocated page id is never one that is still in use", across a reopen of the file disk
+// manager. The data file holds p whole pages and a tail of t bytes (t > 0: the first write of page p was cut
+// by a crash - the page exists on disk, redo will fetch it). For every (p, t) of the enumeration the file is
+// reopened with the repository's NewDiskManagerImpl and the first AllocatePage must not return an id that
+// has bytes in the file.
+func c13Reopen(res *core.Result) {
+	res.Bound["reopen_file_disk_manager"] = "file of p = 1..4 whole pages + tail of t in {0, 1, 511, 512, 2048, 4095} bytes: first id handed out after the reopen"
+	n := int64(0)
+	for p := 1; p <= 4; p++ {
+		for _, t := range []int{0, 1, 511, 512, 2048, 4095} {
+			c13Seq++
+			dir := filepath.Join(core.Scratch(), fmt.Sprintf("c13r-%d", c13Seq))
+			os.MkdirAll(dir, 0o755)
+			path := filepath.Join(dir, "p.db")
+			os.WriteFile(path, make([]byte, p*common.PageSize+t), 0o644)
+			var got types.PageID
+			f := guard(func() {
+				dm := disk.NewDiskManagerImpl(path)
+				got = dm.AllocatePage()
+				dm.ShutDown()
+			})
+			os.RemoveAll(dir)
+			n++
+			inUse := p // ids 0..p-1 are whole pages
+			if t > 0 {
+				inUse = p + 1 // page p exists partially
+			}
+			if f != nil {
+				res.Violate(&core.Violation{Property: "C13", Signature: "reopen/" + f.Kind + "@" + f.Where, Detail: fmt.Sprintf("file of %d pages + %d bytes: %s", p, t, f.String()),
+					Replay: map[string]any{"reopen_pages": p, "reopen_tail": t}})
+				return
+			}
+			if int(got) < inUse {
+				res.Outcome("VIOLATION:reopen/new-id-in-use")
+				res.Violate(&core.Violation{Property: "C13", Signature: "reopen/new-id-in-use",
+					Detail:  fmt.Sprintf("data file of %d whole pages and a tail of %d bytes reopened: the first AllocatePage returns id %d, but ids 0..%d have bytes in the file (the last one was cut by a crash and will be fetched by redo)", p, t, got, inUse-1),
+					Replay: map[string]any{"reopen_pages": p, "reopen_tail": t}})
+				return
+			}
+		}
+	}
+	res.PerOp["reopen-configurations"] += n
+	res.Outcome("reopen:first-id-beyond-the-file")
 }
